@@ -262,6 +262,44 @@ def Flags.unrestricted (f : Flags) (n : Nat) : Flags :=
   let f := if n ≥ 1 then f.noIgnore else f
   if n ≥ 2 then { f with hidden := true } else f
 
+/-- one filter switch as it appears on the command line (`flags/defs.rs`): the switch and its negation
+(`--hidden` / `--no-hidden`, `--no-ignore` / `--ignore`, `--no-ignore-dot` / `--ignore-dot`, …, `--no-require-git` /
+`--require-git`; `v` = the value the switch sets), and `-u`, which has no negation -/
+inductive FlagTok where
+  | hidden (v : Bool) | noIgnore (v : Bool) | noIgnoreDot (v : Bool) | noIgnoreExclude (v : Bool)
+  | noIgnoreFiles (v : Bool) | noIgnoreGlobal (v : Bool) | noIgnoreParent (v : Bool) | noIgnoreVcs (v : Bool)
+  | noRequireGit (v : Bool) | unrestricted
+  deriving Repr, DecidableEq
+
+/-- `LowArgs` as far as the walk is concerned: the switches and the `-u` counter -/
+structure FlagState where
+  f : Flags
+  u : Nat
+  deriving Repr, DecidableEq
+
+/-- each flag's `update`: a switch overwrites its field(s); `--no-ignore`/`--ignore` overwrite the five fields
+dot, exclude, global, parent, vcs; the n-th `-u` is `--no-ignore` (n = 1), `--hidden` (n = 2), `--binary` (n = 3) -/
+def applyTok (s : FlagState) : FlagTok → FlagState
+  | .hidden v => { s with f := { s.f with hidden := v } }
+  | .noIgnore v => { s with f := { s.f with no_ignore_dot := v, no_ignore_exclude := v, no_ignore_global := v,
+                                            no_ignore_parent := v, no_ignore_vcs := v } }
+  | .noIgnoreDot v => { s with f := { s.f with no_ignore_dot := v } }
+  | .noIgnoreExclude v => { s with f := { s.f with no_ignore_exclude := v } }
+  | .noIgnoreFiles v => { s with f := { s.f with no_ignore_files := v } }
+  | .noIgnoreGlobal v => { s with f := { s.f with no_ignore_global := v } }
+  | .noIgnoreParent v => { s with f := { s.f with no_ignore_parent := v } }
+  | .noIgnoreVcs v => { s with f := { s.f with no_ignore_vcs := v } }
+  | .noRequireGit v => { s with f := { s.f with no_require_git := v } }
+  | .unrestricted =>
+    let u := s.u + 1
+    if u == 1 then { f := { s.f with no_ignore_dot := true, no_ignore_exclude := true, no_ignore_global := true,
+                                     no_ignore_parent := true, no_ignore_vcs := true }, u := u }
+    else if u == 2 then { f := { s.f with hidden := true }, u := u }
+    else { s with u := u }
+
+/-- the flags a command line amounts to: the switches are applied from left to right -/
+def foldToks (toks : List FlagTok) : Flags := (toks.foldl applyTok ⟨Flags.default, 0⟩).f
+
 /-- the `WalkBuilder` settings -/
 def walkOpts (f : Flags) : Opts :=
   { hidden := !f.hidden,
